@@ -135,6 +135,24 @@ static void onVerifPoint(const char* tag)
   if (tag && std::strcmp(tag, "tp:popped") == 0) ++g_popped;
 }
 
+// ---------------------------------------------------------------- branch counters (evidence: which arms the run reached)
+// Measured on the implementation side with the REAL parser / classifier; appended to the file named by C16_COUNTERS at exit.
+static std::map<std::string, long> g_counters;
+static std::mutex g_countersMutex;
+static void bump(const std::string& k)
+{
+  std::lock_guard<std::mutex> g(g_countersMutex);
+  ++g_counters[k];
+}
+static void dumpCounters()
+{
+  const char* f = std::getenv("C16_COUNTERS");
+  if (!f || !*f) return;
+  std::ofstream o(f, std::ios::app);
+  std::lock_guard<std::mutex> g(g_countersMutex);
+  for (const auto& kv : g_counters) o << kv.first << " " << kv.second << "\n";
+}
+
 // ---------------------------------------------------------------- scripted handlers
 struct Action
 {
@@ -193,6 +211,7 @@ struct ScriptedServer : HttpServer
   std::optional<Script> upgradeScript;
   bool suppressHook = false;
   int suppressThrow = 0;                     // 1: the seam throws a std::exception, 2: something else
+  int drainThrow = 0;                        // onUpgradedData (third virtual hook): 0 returns, 1 throws std::exception, 2 something else
   std::atomic<bool> flipInUserCode{false};   // "stop() is called while user code runs": user code sets _shutdown
   std::atomic<bool> userSuppressed{false};   // a handler returned with _suppressSend set / the seam returned true
 
@@ -204,6 +223,12 @@ struct ScriptedServer : HttpServer
     if (!upgradeScript) return false;
     runScript(*this, *upgradeScript, req, res);
     return true;
+  }
+  void onUpgradedData(SessionId, const std::uint8_t*, std::size_t len) override
+  {
+    bump(len > 0 ? "drain:onUpgradedData" : "drain:onUpgradedData-empty");
+    if (drainThrow == 1) { bump("drain:threw-std"); throw std::runtime_error("scripted upgraded-data failure"); }
+    if (drainThrow == 2) { bump("drain:threw-other"); throw 42; }
   }
   bool onResponseSuppressed(SessionId, const Request&, Response&) override
   {
@@ -310,6 +335,7 @@ struct Lock
   std::mutex m;
   std::vector<Ev> evs;
   std::atomic<bool> shutdownAfterSend{false};
+  std::atomic<bool> resetTransportAfterSend{false};   // stop() between the two _mutex sections of the shutdown arm
   static constexpr SessionId sid = 7;
   SessionId nextSid = 100;
 
@@ -326,6 +352,7 @@ struct Lock
       std::lock_guard<std::mutex> g(m);
       evs.push_back(Ev{eng->sendResult ? 'S' : 'F', id, b});
       if (shutdownAfterSend.load()) s->_shutdown.store(true);
+      if (resetTransportAfterSend.load()) { s->_transport = nullptr; bump("req:shutdown-arm-transport-reset-between-sections"); }   // `transport` keeps the object alive
     };
     eng->onCloseCall = [this](SessionId id) {
       std::lock_guard<std::mutex> g(m);
@@ -342,6 +369,7 @@ struct Lock
     s->upgradeScript.reset();
     s->suppressHook = false;
     s->suppressThrow = 0;
+    s->drainThrow = 0;
   }
 
   bool poolIdle()
@@ -423,6 +451,7 @@ struct Lock
     if (shape == "SX") return "respond 1 " + showWire(e[0].data);
     if (shape == "F") return "sendfailed 0";
     if (shape == "FX") return "sendfailed 1";
+    if (shape == "X") return "closeonly";
     return "unexpected-commands " + shape;
   }
 };
@@ -541,6 +570,40 @@ static ConnResult runConn(int port, const std::string& spec, int watchdogMs, int
   return r;
 }
 
+// which arm / dispatch category will the real code take for these request bytes?  (real parser, real splitPath / classifyRequest)
+static void countCategory(ScriptedServer& s, const std::string& raw, const std::string& prefix)
+{
+  try
+  {
+    HttpRequest r = HttpRequest::fromWireFormat(raw);
+    bool head = r.method == HttpMethod::HEAD;
+    for (const auto& kv : r.headers)
+    {
+      std::string k = kv.first;
+      std::transform(k.begin(), k.end(), k.begin(), ::tolower);
+      if (k == "upgrade") { bump(prefix + (s.upgradeScript ? "upgrade-hook-set" : "upgrade-header-no-hook")); if (s.upgradeScript) return; break; }
+    }
+    std::string path = r.uri;
+    auto q = path.find('?');
+    if (q != std::string::npos) path = path.substr(0, q);
+    auto d = s.classifyRequest(r.method, path, HttpServer::splitPath(path));
+    const char* n = "?";
+    switch (d.cat)
+    {
+    case HttpServer::DispatchDecision::Cat::MATCHED: n = "matched"; break;
+    case HttpServer::DispatchDecision::Cat::MATCHED_AS_HEAD: n = "matchedAsHead"; break;
+    case HttpServer::DispatchDecision::Cat::AUTO_OPTIONS: n = "autoOptions"; break;
+    case HttpServer::DispatchDecision::Cat::OPTIONS_STAR: n = "optionsStar"; break;
+    case HttpServer::DispatchDecision::Cat::METHOD_NOT_ALLOWED: n = "methodNotAllowed"; break;
+    case HttpServer::DispatchDecision::Cat::NO_ROUTE: n = d.hasHandler ? "noRoute-defaultHandler" : "noRoute-404"; break;
+    }
+    bump(prefix + n);
+    if (head) bump(prefix + "HEAD-" + n);
+  }
+  catch (const HttpRequestError& e) { bump(prefix + "parse-reject-" + std::to_string(e.status())); }
+  catch (...) { bump(prefix + "parse-reject-other"); }
+}
+
 static std::string guarded(const std::function<std::string()>& f)
 {
   try { return f(); }
@@ -604,8 +667,15 @@ int main()
         L.s->suppressThrow = t[2] == "thr" ? 1 : (t[2] == "thx" ? 2 : 0);
         return "ok";
       }
-      if (t.size() == 4 && t[0] == "req" && vh::ofHex(t[1], d) && t[2].size() == 6)
+      if (t.size() == 3 && t[0] == "hook" && t[1] == "drain" && (t[2] == "0" || t[2] == "thr" || t[2] == "thx"))
       {
+        L.s->drainThrow = t[2] == "thr" ? 1 : (t[2] == "thx" ? 2 : 0);
+        return "ok";
+      }
+      if ((t.size() == 4 || t.size() == 5) && t[0] == "req" && vh::ofHex(t[1], d) && t[2].size() == 6)
+      {
+        Bytes residual;
+        if (t.size() == 5 && !vh::ofHex(t[4], residual)) return "bad-op";
         const std::string& b = t[2];
         for (char c : b) if (c != '0' && c != '1') return "bad-op";
         bool sh = b[0] == '1', tr = b[1] == '1', flip = b[2] == '1', enq = b[3] == '1', upc = b[4] == '1', trs = b[5] == '1';
@@ -618,6 +688,8 @@ int main()
             if (t[3] == "v10") si.httpVersion = "1.0";
             else if (t[3] == "nka") si.connectionKeepAlive = false;
             else if (t[3] != "d") return "bad-op";
+            // bytes that arrived behind this request in the same read: what the extractor leaves in the session buffer
+            si.buffer.assign(residual.begin(), residual.end());
           }
         }
         L.s->_shutdown.store(sh);
@@ -625,8 +697,12 @@ int main()
         L.s->flipInUserCode.store(flip);
         L.eng->sendResult = enq;
         L.shutdownAfterSend.store(!upc);
+        L.resetTransportAfterSend.store(sh && !upc);
         std::string req(d.begin(), d.end());
         std::string thrown;
+        if (sh) bump(tr ? "req:shutdown-arm" : "req:shutdown-arm-no-transport");
+        else countCategory(*L.s, req, "req:");
+        if (!residual.empty()) bump(t[3] != "-" ? "req:residual-in-session-buffer" : "req:residual-but-no-session");
         try { L.s->processHttpRequest(Lock::sid, req); }
         catch (const std::exception& e) { thrown = std::string("throw ") + typeid(e).name(); }
         catch (...) { thrown = "throw unknown"; }
@@ -635,12 +711,20 @@ int main()
         L.s->flipInUserCode.store(false);
         L.eng->sendResult = true;
         L.shutdownAfterSend.store(false);
+        L.resetTransportAfterSend.store(false);
         std::string o = L.outcome(Lock::sid);
         return thrown.empty() ? o : thrown;
       }
-      if (t.size() == 2 && t[0] == "dispatch" && vh::ofHex(t[1], d))
+      if ((t.size() == 2 && t[0] == "dispatch" && vh::ofHex(t[1], d)) || (t.size() == 3 && t[0] == "dispatchr" && vh::ofHex(t[1], d)))
       {
+        // `dispatchr <request> <residual>`: ONE read carries the request and bytes behind it (e.g. an upgrade request and the first frame of
+        // the upgraded protocol): the extractor leaves the residual in the session buffer, the worker's upgrade arm drains it
+        Bytes residual;
+        if (t.size() == 3 && !vh::ofHex(t[2], residual)) return "bad-op";
+        if (!residual.empty()) bump("dispatch:request-plus-residual-in-one-read");
         // the real I/O-thread path: handleIncomingData -> tryEnqueue -> pool worker -> processHttpRequest
+        countCategory(*L.s, std::string(d.begin(), d.end()), "dispatch:");
+        d.insert(d.end(), residual.begin(), residual.end());
         SessionId sid = L.nextSid++;
         {
           std::lock_guard<std::mutex> g(L.s->_sessionMutex);
@@ -723,8 +807,15 @@ int main()
         if (!idle) return "pool-not-idle";
         return L.delta();
       }
-      if (t.size() == 2 && t[0] == "overflow" && vh::ofHex(t[1], d))
+      if ((t.size() == 2 || (t.size() == 3 && t[2].size() == 3)) && t[0] == "overflow" && vh::ofHex(t[1], d))
       {
+        // optional env bits: the engine accepts the Send, _shutdown set, transport present (sendErrorResponse's guard / completion)
+        bool enq = true, shut = false, trp = true;
+        if (t.size() == 3)
+        {
+          for (char c : t[2]) if (c != '0' && c != '1') return "bad-op";
+          enq = t[2][0] == '1'; shut = t[2][1] == '1'; trp = t[2][2] == '1';
+        }
         // fill the pool: every worker blocked, the queue at capacity; the next extracted request must get the 503
         auto& tp = L.s->_threadPool;
         std::mutex gm;
@@ -749,7 +840,14 @@ int main()
           std::lock_guard<std::mutex> g(L.s->_sessionMutex);
           L.s->_sessionInfo[sid];
         }
+        L.eng->sendResult = enq;
+        L.s->_shutdown.store(shut);
+        L.s->_transport = trp ? L.transport : nullptr;
+        bump(std::string("overflow:") + (shut || !trp ? "guard-false" : (enq ? "send-accepted" : "send-refused")));
         L.s->handleIncomingData(sid, d.data(), d.size());
+        L.eng->sendResult = true;
+        L.s->_shutdown.store(false);
+        L.s->_transport = L.transport;
         std::string o = L.outcome(sid);
         {
           std::lock_guard<std::mutex> g(gm);
@@ -766,6 +864,43 @@ int main()
       // ---------------- end-to-end
       if (t.size() == 2 && t[0] == "e2e" && t[1] == "start") return E.start(routes, dflt);
       if (t.size() == 2 && t[0] == "e2e" && t[1] == "stop") { E.stop(); return "ok"; }
+      if (t.size() == 4 && t[0] == "e2e" && t[1] == "restart" && vh::parseNat(t[2], n) && vh::ofHex(t[3], d))
+      {
+        // client A sends `d` (its handler outlives stop()'s drain wait); stop(), then start() on the SAME server object; client B connects,
+        // sends nothing and listens for n ms: whatever arrives there was addressed to somebody else
+        if (!E.s) return "bad-op";
+        int a = dial(E.port);
+        if (a < 0) return "connect-failed";
+        ::send(a, d.data(), d.size(), MSG_NOSIGNAL);
+        std::this_thread::sleep_for(std::chrono::milliseconds(200));
+        E.s->stop();
+        E.s->start();
+        E.port = E.s->_transport->getListenerAddress(E.s->_listenerId).port;
+        int b = dial(E.port);
+        if (b < 0) { ::close(a); return "connect-failed"; }
+        std::string gotB, gotA;
+        auto until = Clock::now() + std::chrono::milliseconds(n);
+        while (Clock::now() < until)
+        {
+          pollfd p{b, POLLIN, 0};
+          int left = static_cast<int>(std::chrono::duration_cast<std::chrono::milliseconds>(until - Clock::now()).count());
+          if (::poll(&p, 1, std::max(left, 1)) <= 0) break;
+          char buf[4096];
+          ssize_t k = ::read(b, buf, sizeof buf);
+          if (k <= 0) break;
+          gotB.append(buf, static_cast<std::size_t>(k));
+          until = std::min(until, Clock::now() + std::chrono::milliseconds(150));
+        }
+        {
+          pollfd p{a, POLLIN, 0};
+          char buf[4096];
+          while (::poll(&p, 1, 0) > 0) { ssize_t k = ::read(a, buf, sizeof buf); if (k <= 0) break; gotA.append(buf, static_cast<std::size_t>(k)); }
+        }
+        ::close(a);
+        ::close(b);
+        bump("e2e:restart-with-running-handler");
+        return "restart B=" + (gotB.empty() ? std::string("-") : vh::toHex(gotB)) + " A=" + (gotA.empty() ? std::string("-") : vh::toHex(gotA));
+      }
       if (t.size() >= 5 && t[0] == "e2e" && t[1] == "run" && vh::parseNat(t[2], n))
       {
         // e2e run <watchdog ms> <linger ms> <conn-spec> <conn-spec> ...   (connections run concurrently)
@@ -795,5 +930,6 @@ int main()
     });
   });
   E.stop();
+  dumpCounters();
   return rc;
 }
